@@ -76,6 +76,80 @@ def run(ctx):
         res.site(key, True, {"verdict": "ok" if ok else "VIOLATION"})
         if not ok:
             res.find(key, rts.loc(), "argument resolution in resolve_to_signature is not dominated by the comparison of the argument count with the signature's slot count (error ParameterCount)", "`CALL f x` against a two-parameter signature resolves (or indexes past the parameters)")
+        # R2b the count check compares the plain number of arguments with (parameters + 1 if there is a return slot)
+        key = "K7|count-check-condition"
+        verdict, detail = "undecided: comparison not found", {}
+        for d in range(len(rts.blocks)):
+            tt = rts.blocks[d]["t"]
+            if tt["k"] != "switch":
+                continue
+            e = fn_expr_operand(rts, tt["d"])
+            if not (e[0] == "bin" and e[1] in ("Ne", "Eq")):
+                continue
+            sides = [e[2], e[3]]
+
+            def nn(x):
+                out = []
+                walk_expr(x, out.append)
+                return out
+
+            arg_side = [x for x in sides if any(n[0] == "field" and n[2] == "arguments" for n in nn(x))]
+            par_side = [x for x in sides if any(n[0] == "field" and n[2] == "parameters" for n in nn(x))]
+            if len(arg_side) != 1 or len(par_side) != 1 or arg_side[0] is par_side[0]:
+                continue
+            a, p_ = arg_side[0], par_side[0]
+            plain_len = a[0] == "call" and a[1].endswith("::len") and not any(n[0] in ("bin", "phi") for n in nn(a))
+            lossy = sorted({n[1].rsplit("::", 1)[-1] for n in nn(a) if n[0] == "call" and n[1].rsplit("::", 1)[-1] in ("saturating_sub", "checked_sub", "wrapping_sub", "min", "max", "clamp")})
+            plus_one = any(n[0] == "bin" and n[1].startswith("Add") and n[3][0] == "const" and n[3][1] == 1 for n in nn(p_)) or any(n[0] == "cast" or (n[0] == "call" and n[1].endswith("::from")) for n in nn(p_))
+            uses_ret = any(tt2["t"]["k"] == "switch" and any(n[0] == "field" and n[2] == "return_type" for n in nn(fn_expr_operand(rts, tt2["t"]["d"]))) for tt2 in rts.blocks) or any(n[0] == "field" and n[2] == "return_type" for n in nn(p_))
+            detail = {"argument_side_is_plain_len": plain_len, "lossy_arithmetic_on_argument_count": lossy, "slot_count_adds_return_slot": plus_one and uses_ret}
+            if lossy:
+                verdict = "VIOLATION"
+            elif plain_len and plus_one and uses_ret:
+                verdict = "ok"
+            else:
+                verdict = "undecided: unrecognised form of the count comparison"
+            break
+        res.site(key, True, dict(detail, verdict=verdict))
+        if verdict == "VIOLATION":
+            res.find(key, rts.loc(), "the argument-count check applies %s to the number of arguments before comparing: distinct counts are identified, so a call with too few arguments resolves" % detail["lossy_arithmetic_on_argument_count"], "`CALL f` with no arguments against `PRAGMA EXTERN f \"INTEGER\"` (return slot only) resolves")
+        elif verdict != "ok":
+            res.undecided.append(key + " " + verdict)
+    # R1b the `mut` qualifier is written for every mutable parameter, whatever its type: wherever the writers branch on
+    #     `mutable`, every path of the true side passes a write of the literal containing "mut"
+    key = "K7|mut-qualifier-written"
+    from qv.engine import callee_of
+    found_switch = False
+    bad = []
+    for g in db.fns:
+        if not g.path.startswith(EC) and not ("extern_call::" in g.path):
+            continue
+        emits = []
+        for bb, t, c in g.calls():
+            if c and c.get("name") in ("write_fmt", "write_str", "push_str"):
+                es = [fn_expr_operand(g, a) for a in t["args"][1:]]
+                consts = []
+                for e in es:
+                    walk_expr(e, lambda n: consts.append(n[1]) if n[0] == "const" and isinstance(n[1], str) else None)
+                if any("mut" in c_ for c_ in consts):
+                    emits.append(bb)
+        for d in range(len(g.blocks)):
+            tt = g.blocks[d]["t"]
+            if tt["k"] != "switch":
+                continue
+            e = fn_expr_operand(g, tt["d"])
+            if (e[0] == "field" and e[2] == "mutable") or (e[0] == "param" and e[2] == "mutable"):
+                # only in functions that write text
+                if not any(c and c.get("name") in ("write_fmt", "write_str") for bb, t, c in g.calls()):
+                    continue
+                found_switch = True
+                true_succ = tt["else"] if [v for v, x in tt["ts"]] == ["0"] else [x for v, x in tt["ts"] if v != "0"][0]
+                if not g.all_paths_pass(true_succ, set(emits)):
+                    bad.append(g.path)
+    ok = found_switch and not bad
+    res.site(key, True, {"writers_branching_on_mutable": found_switch, "paths_missing_the_qualifier": bad, "verdict": "ok" if ok else "VIOLATION"})
+    if not ok:
+        res.find(key, "-", "a mutable extern parameter is not always printed with its `mut` qualifier (%s)" % (bad or "no writer branches on `mutable`"), "`(buffer : mut REAL[])` prints as `(buffer : REAL[])`, which parses back as immutable")
     # R3
     rs = require_fn(db, res, UCA + "::resolve")
     if rs:
